@@ -5,11 +5,15 @@ From LV Require Import Base.Prelude Shape.Chain Shape.Spec Shape.Transform Shape
   Shape.InPlace_proofs.
 Import ListNotations.
 
-(* all nodes that have a callback, pre-order *)
+Section Vt.
+Variable vt : bool.      (* visit_tokens: token nodes have a callback call only when it is on *)
+Notation post_paths := (post_paths vt).
+
+(* all nodes whose callback is called, pre-order *)
 Fixpoint node_paths (p : path) (t : stree) : log :=
   match t with
   | Tr _ ch => p :: mapi_cat node_paths p 0 ch
-  | Tok _ _ => [p]
+  | Tok _ _ => tok_log vt p
   | NoneV => []
   end.
 
@@ -55,7 +59,8 @@ Proof. induction 1; intros p i; simpl; auto. apply Permutation_app; auto. Qed.
 Lemma node_paths_prefix t : forall p q, In q (node_paths p t) -> exists s, q = p ++ s.
 Proof.
   induction t as [ty v| |n ch IH] using stree_ind'; intros p q H; simpl in H.
-  - destruct H as [<-|[]]. exists []. rewrite app_nil_r. reflexivity.
+  - unfold tok_log in H. destruct vt; simpl in H; [|destruct H].
+    destruct H as [<-|[]]. exists []. rewrite app_nil_r. reflexivity.
   - destruct H.
   - destruct H as [<-|H]; [exists []; rewrite app_nil_r; reflexivity|].
     apply in_mapi_cat in H. destruct H as (j & c & Hj & H).
@@ -74,7 +79,7 @@ Qed.
 Theorem node_paths_nodup t : forall p, NoDup (node_paths p t).
 Proof.
   induction t as [ty v| |n ch IH] using stree_ind'; intros p; simpl.
-  - constructor; [intros []|constructor].
+  - unfold tok_log. destruct vt; [constructor; [intros []|constructor]|constructor].
   - constructor.
   - constructor.
     + intros H. apply in_mapi_cat in H. destruct H as (j & c & _ & H).
@@ -103,7 +108,8 @@ Lemma post_paths_before t : forall p q i,
   In (q ++ [i]) (post_paths p t) -> In q (post_paths p t) -> before (post_paths p t) (q ++ [i]) q.
 Proof.
   induction t as [ty v| |n ch IH] using stree_ind'; intros p q i Hx Hy; simpl in *.
-  - destruct Hx as [Hx|[]], Hy as [Hy|[]]. rewrite <- Hy in Hx.
+  - unfold tok_log in *. destruct vt; simpl in *; [|destruct Hx].
+    destruct Hx as [Hx|[]], Hy as [Hy|[]]. rewrite <- Hy in Hx.
     apply (f_equal (@length nat)) in Hx. rewrite app_length in Hx. simpl in Hx. lia.
   - destruct Hx.
   - apply in_app_iff in Hx. apply in_app_iff in Hy.
@@ -135,11 +141,15 @@ Theorem post_paths_ocf t : once_children_first t (post_paths [] t).
 Proof. split; [apply post_paths_perm|apply post_paths_before]. Qed.
 
 (* ---- the log of Transformer_InPlace ---------------------------------------------------------------- *)
+Definition logged (c : stree) : bool :=
+  match c with Tr _ _ => true | Tok _ _ => vt | NoneV => false end.
+
 Fixpoint cp_go (p : path) (i : nat) (ch : list stree) : log :=
   match ch with
   | [] => []
   | NoneV :: r => cp_go p (S i) r
-  | _ :: r => (p ++ [i]) :: cp_go p (S i) r
+  | Tok _ _ :: r => tok_log vt (p ++ [i]) ++ cp_go p (S i) r
+  | Tr _ _ :: r => (p ++ [i]) :: cp_go p (S i) r
   end.
 
 Definition child_paths (x : path * stree) : log :=
@@ -148,50 +158,58 @@ Definition child_paths (x : path * stree) : log :=
 Definition desc (x : path * stree) : log := tl (node_paths (fst x) (snd x)).
 
 Lemma in_cp_go p q : forall ch i,
-  In q (cp_go p i ch) <-> exists j c, nth_error ch j = Some c /\ c <> NoneV /\ q = p ++ [i + j].
+  In q (cp_go p i ch) <-> exists j c, nth_error ch j = Some c /\ logged c = true /\ q = p ++ [i + j].
 Proof.
   induction ch as [|x ch IH]; intros i; simpl.
   - split; [tauto|]. intros ([|j] & c & H & _); discriminate.
-  - assert (Hr : In q (cp_go p (S i) ch) <-> exists j c, nth_error ch j = Some c /\ c <> NoneV /\ q = p ++ [i + S j]).
+  - assert (Hr : In q (cp_go p (S i) ch) <-> exists j c, nth_error ch j = Some c /\ logged c = true /\ q = p ++ [i + S j]).
     { rewrite IH. split; intros (j & c & H1 & H2 & H3); exists j, c; repeat split; auto;
         rewrite H3; f_equal; f_equal; lia. }
-    destruct x as [ty v|n ch'|]; simpl; rewrite ?Hr; split.
-    + intros [<-|(j & c & H)]; [exists 0, (Tok ty v); rewrite Nat.add_0_r; repeat split; auto; discriminate|].
-      exists (S j), c. exact H.
-    + intros ([|j] & c & H1 & H2 & H3); [left; rewrite H3, Nat.add_0_r; reflexivity|right; exists j, c; auto].
-    + intros [<-|(j & c & H)]; [exists 0, (Tr n ch'); rewrite Nat.add_0_r; repeat split; auto; discriminate|].
-      exists (S j), c. exact H.
-    + intros ([|j] & c & H1 & H2 & H3); [left; rewrite H3, Nat.add_0_r; reflexivity|right; exists j, c; auto].
-    + intros (j & c & H). exists (S j), c. exact H.
-    + intros ([|j] & c & H1 & H2 & H3); [simpl in H1; injection H1 as <-; congruence|exists j, c; auto].
+    assert (Hhead : forall (P : Prop), (P <-> (logged x = true /\ q = p ++ [i])) ->
+              (P \/ In q (cp_go p (S i) ch) <-> exists j c, nth_error (x :: ch) j = Some c /\ logged c = true /\ q = p ++ [i + j])).
+    { intros P HP. rewrite Hr, HP. split.
+      - intros [[H1 H2]|(j & c & H)]; [exists 0, x; rewrite Nat.add_0_r; auto|exists (S j), c; exact H].
+      - intros ([|j] & c & H1 & H2 & H3).
+        + left. simpl in H1. injection H1 as <-. rewrite Nat.add_0_r in H3. auto.
+        + right. exists j, c. auto. }
+    destruct x as [ty v|n ch'|].
+    + rewrite in_app_iff. apply Hhead. unfold tok_log. simpl. destruct vt; simpl; split.
+      * intros [<-|[]]. auto.
+      * intros [_ ->]. auto.
+      * intros [].
+      * intros [H _]. discriminate.
+    + simpl. apply Hhead. simpl. split; [intros <-; auto|intros [_ ->]; auto].
+    + rewrite Hr. split.
+      * intros (j & c & H). exists (S j), c. exact H.
+      * intros ([|j] & c & H1 & H2 & H3); [simpl in H1; injection H1 as <-; discriminate|exists j, c; auto].
 Qed.
 
 Section IPLog.
   Variable T : transformer.
 
-  Lemma ip_children_log h p : forall ch i, snd (ip_children T h p i ch) = cp_go p i ch.
+  Lemma ip_children_log h p : forall ch i, snd (ip_children T vt h p i ch) = cp_go p i ch.
   Proof.
     induction ch as [|c ch IH]; intros i; simpl; auto.
-    specialize (IH (S i)). destruct (ip_children T h p (S i) ch) as [vs l2]. simpl in IH. subst l2.
+    specialize (IH (S i)). destruct (ip_children T vt h p (S i) ch) as [vs l2]. simpl in IH. subst l2.
     destruct c; reflexivity.
   Qed.
 
-  Lemma ip_step_log h x : snd (ip_step T h x) = child_paths x.
+  Lemma ip_step_log h x : snd (ip_step T vt h x) = child_paths x.
   Proof.
     unfold ip_step, child_paths. destruct (snd x) as [| n ch |]; auto.
     pose proof (ip_children_log h (fst x) ch 0) as E.
-    destruct (ip_children T h (fst x) 0 ch). exact E.
+    destruct (ip_children T vt h (fst x) 0 ch). exact E.
   Qed.
 
-  Lemma ip_fold_log order : snd (ip_fold T order) = flat_map child_paths order.
+  Lemma ip_fold_log order : snd (ip_fold T vt order) = flat_map child_paths order.
   Proof.
     unfold ip_fold.
     assert (G : forall order st, snd (fold_left (fun (st : heap * log) x =>
-                 let '(h', l') := ip_step T (fst st) x in (h', snd st ++ l')) order st)
+                 let '(h', l') := ip_step T vt (fst st) x in (h', snd st ++ l')) order st)
                = snd st ++ flat_map child_paths order).
     { induction order0 as [|x o IH]; intros st; simpl; [rewrite app_nil_r; auto|].
       rewrite IH. pose proof (ip_step_log (fst st) x) as E.
-      destruct (ip_step T (fst st) x). simpl in *. subst l. rewrite app_assoc. reflexivity. }
+      destruct (ip_step T vt (fst st) x). simpl in *. subst l. rewrite app_assoc. reflexivity. }
     apply G.
   Qed.
 
@@ -202,7 +220,7 @@ Section IPLog.
   Proof.
     induction ch as [|c ch IH]; intros i; simpl; auto.
     destruct c as [ty v|n ch'|]; simpl.
-    - constructor. apply IH.
+    - rewrite <- app_assoc. apply Permutation_app_head. apply IH.
     - constructor. unfold desc at 1. simpl.
       eapply Permutation_trans; [apply Permutation_app_head, IH|].
       repeat rewrite app_assoc. apply Permutation_app_tail. apply Permutation_app_comm.
@@ -224,24 +242,25 @@ Section IPLog.
       eapply Permutation_trans;
         [apply Permutation_app_head; apply Permutation_flat_map; apply Permutation_sym, Permutation_rev|].
       destruct t as [ty v|n ch|]; unfold child_paths, tree_kids; simpl; auto.
-      unfold desc at 2. simpl. apply Permutation_sym. apply desc_split.
+      + unfold desc, tok_log. simpl. destruct vt; constructor.
+      + unfold desc. simpl. apply Permutation_sym. apply desc_split.
   Qed.
 
   Lemma in_child_paths x q : In q (child_paths x) ->
-    exists n ch i c, snd x = Tr n ch /\ q = fst x ++ [i] /\ nth_error ch i = Some c /\ c <> NoneV.
+    exists n ch i c, snd x = Tr n ch /\ q = fst x ++ [i] /\ nth_error ch i = Some c /\ logged c = true.
   Proof.
     unfold child_paths. destruct (snd x) as [| n ch |]; simpl; try tauto.
     intros H. apply in_cp_go in H. destruct H as (j & c & H1 & H2 & H3). exists n, ch, j, c. auto.
   Qed.
 
   Theorem transform_ip_log n ch lg v :
-    transform_ip T (Tr n ch) = Some (v, lg) -> once_children_first (Tr n ch) lg.
+    transform_ip T vt (Tr n ch) = Some (v, lg) -> once_children_first (Tr n ch) lg.
   Proof.
     set (root := Tr n ch).
     unfold transform_ip, iter_subtrees.
     destruct (bfs (ssize root) [([], root)]) as [l|] eqn:Hl; simpl; [|discriminate].
     pose proof (ip_fold_log (rev l)) as Elog.
-    destruct (ip_fold T (rev l)) as [h lg0]. simpl in Elog. intros H. injection H as _ <-. subst lg0.
+    destruct (ip_fold T vt (rev l)) as [h lg0]. simpl in Elog. intros H. injection H as _ <-. subst lg0.
     assert (Hq : Forall (cons_ok root) [([], root)]) by (constructor; [reflexivity|constructor]).
     pose proof (bfs_cons_ok root _ _ _ Hl Hq) as Hc.
     split.
@@ -285,10 +304,10 @@ End IPLog.
 Theorem variants_equal T n ch :
   let t := Tr n ch in
   exists l1 l2 l3 l4,
-    transform_rec T t = (tr T t, l1) /\ transform_nr T t = Some (tr T t, l2) /\
-    transform_ip T t = Some (tr T t, l3) /\ transform_ipr T t = (tr T t, l4).
+    transform_rec T vt t = (tr T vt t, l1) /\ transform_nr T vt t = Some (tr T vt t, l2) /\
+    transform_ip T vt t = Some (tr T vt t, l3) /\ transform_ipr T vt t = (tr T vt t, l4).
 Proof.
-  intros t. destruct (transform_ip_value T t) as [l3 H3]; [unfold t; eauto|].
+  intros t. destruct (transform_ip_value T vt t) as [l3 H3]; [unfold t; eauto|].
   exists (post_paths [] t), (post_paths [] t), l3, (post_paths [] t).
   repeat split; auto.
   - apply rec_tc_spec.
@@ -299,10 +318,10 @@ Qed.
 Theorem calls_once_children_first T n ch :
   let t := Tr n ch in
   NoDup (node_paths [] t) /\
-  once_children_first t (snd (transform_rec T t)) /\
-  (forall v lg, transform_nr T t = Some (v, lg) -> once_children_first t lg) /\
-  (forall v lg, transform_ip T t = Some (v, lg) -> once_children_first t lg) /\
-  once_children_first t (snd (transform_ipr T t)).
+  once_children_first t (snd (transform_rec T vt t)) /\
+  (forall v lg, transform_nr T vt t = Some (v, lg) -> once_children_first t lg) /\
+  (forall v lg, transform_ip T vt t = Some (v, lg) -> once_children_first t lg) /\
+  once_children_first t (snd (transform_ipr T vt t)).
 Proof.
   intros t. split; [apply node_paths_nodup|]. split; [|split; [|split]].
   - unfold transform_rec. rewrite rec_tc_spec. apply post_paths_ocf.
@@ -310,3 +329,4 @@ Proof.
   - intros v lg H. eapply transform_ip_log; eauto.
   - unfold transform_ipr. rewrite ipr_tc_spec. apply post_paths_ocf.
 Qed.
+End Vt.
